@@ -109,6 +109,9 @@ pub fn triggers(src: &str, root: &SyntaxNode) -> Vec<&'static str> {
             }
             // R11: in math a `\` line break directly followed (ignoring blanks) by a comment, a
             // separator or a closing parenthesis is glued to it and becomes an escape sequence.
+            // R37: typstyle splits block comments at LF / CRLF only; other line terminators inside
+            // a comment stay in the middle of a "line" and the re-alignment differs between passes.
+            K::BlockComment if f.node.text().chars().any(|c| syn::is_nl(c) && c != '\n') => add("R37"),
             K::Linebreak if in_math[i] => {
                 let next = leaves[li + 1..].iter().map(|&j| &flat[j]).find(|g| g.node.kind() != K::Space);
                 if let Some(n) = next {
@@ -118,6 +121,39 @@ pub fn triggers(src: &str, root: &SyntaxNode) -> Vec<&'static str> {
                 }
             }
             _ => {}
+        }
+    }
+    // sibling-based rules
+    for f in flat.iter() {
+        let kids: Vec<&SyntaxNode> = f.node.children().collect();
+        for w in 0..kids.len() {
+            let c = kids[w];
+            if !syn::is_comment(c.kind()) {
+                continue;
+            }
+            // R45: two comments glued together without a blank between them
+            if w > 0 && syn::is_comment(kids[w - 1].kind()) && kids[w - 1].kind() == K::BlockComment {
+                add("R45");
+            }
+            // R33: a multi-line block comment that starts on the line where a multi-line token or
+            // node ends is re-aligned relative to a column that moves between passes
+            if c.kind() == K::BlockComment && syn::has_nl(c.text()) {
+                let mut j = w;
+                while j > 0 {
+                    j -= 1;
+                    let p = kids[j];
+                    if p.kind() == K::Space {
+                        if syn::has_nl(p.text()) {
+                            break;
+                        }
+                        continue;
+                    }
+                    if syn::has_nl(&syn::text_of(p)) {
+                        add("R33");
+                    }
+                    break;
+                }
+            }
         }
     }
     for (i, f) in flat.iter().enumerate() {
@@ -163,6 +199,43 @@ pub fn triggers(src: &str, root: &SyntaxNode) -> Vec<&'static str> {
                     }
                 }
             }
+            // R33: a multi-line block comment in an argument list that also holds a multi-line raw
+            // or string argument is re-aligned relative to a column that moves between passes.
+            K::Args | K::Array | K::Dict | K::Keyed | K::Named | K::Params | K::Destructuring | K::Parenthesized
+                if f.node.children().any(|c| c.kind() == K::BlockComment && syn::has_nl(c.text()))
+                    && syn::any_node(f.node, &mut |x| matches!(x.kind(), K::Raw | K::Str) && syn::has_nl(&syn::text_of(x))) =>
+            {
+                add("R33");
+                if in_math[i] && k == K::Args {
+                    add("R39");
+                }
+            }
+            // R39: comments inside the argument list of a math call (with 2-D rows, delimiters and
+            // line breaks around them) are placed differently from pass to pass.
+            K::Args | K::Array if in_math[i] && f.node.children().any(|c| syn::is_comment(c.kind())) => add("R39"),
+            // R40: 2-D math arguments with an empty cell or row (two separators in a row, a separator
+            // right after `(` or right before `)`): blanks around them differ between passes.
+            K::Args if in_math[i] && f.node.children().any(|c| c.kind() == K::Semicolon) && {
+                let sig: Vec<K> = f.node.children().filter(|c| c.kind() != K::Space).map(|c| c.kind()).collect();
+                let sep = |k: K| matches!(k, K::Comma | K::Semicolon);
+                let mut empty_cell = sig.windows(2).any(|w| (sep(w[0]) || w[0] == K::LeftParen) && (sep(w[1]) || w[1] == K::RightParen));
+                // rows are arrays: a row that ends with a comma
+                empty_cell |= f.node.children().any(|c| c.kind() == K::Array && c.children().filter(|x| x.kind() != K::Space).last().is_some_and(|x| x.kind() == K::Comma));
+                empty_cell
+            } => add("R40"),
+            // R41: a table / grid call whose `columns` value is wrapped in parentheses: the first
+            // pass removes them, only the second pass then recognises the column count and re-flows
+            // the cells.
+            K::FuncCall
+                if matches!(f.node.children().next().map(|c| c.text().as_str()), Some("table" | "grid"))
+                    && syn::any_node(f.node, &mut |x| {
+                        x.kind() == K::Named
+                            && x.children().next().is_some_and(|n| n.text() == "columns")
+                            && x.children().any(|v| v.kind() == K::Parenthesized)
+                    }) =>
+            {
+                add("R41")
+            }
             // R24: in a math call `;` directly after embedded code would end the code expression,
             // so typstyle keeps a blank before it -- but only for positional arguments, not when
             // the embedded code sits in a named or spread argument (`$f(..#g ;a)$` -> `$f(..#g; a)$`).
@@ -182,6 +255,63 @@ pub fn triggers(src: &str, root: &SyntaxNode) -> Vec<&'static str> {
                 if has_line_comment || first_space_nl {
                     add("R29");
                 }
+            }
+            // R26: a parenthesised import item list with a comment after its last item: when the
+            // parentheses are omitted the comment leaves the import statement, so the next pass sees
+            // a comment-free list (it may then be reordered, and the line break after it counts as a
+            // space). Also an empty parenthesised list.
+            K::ModuleImport if f.node.children().any(|c| c.kind() == K::LeftParen) => {
+                let items = f.node.children().find(|c| c.kind() == K::ImportItems);
+                let n_items = items.map(|it| it.children().filter(|c| matches!(c.kind(), K::ImportItemPath | K::RenamedImportItem)).count()).unwrap_or(0);
+                // last significant thing before the closing parenthesis
+                let mut last_is_comment = false;
+                for c in f.node.children() {
+                    match c.kind() {
+                        K::RightParen => break,
+                        K::Space => {}
+                        k if syn::is_comment(k) => last_is_comment = true,
+                        K::ImportItems => {
+                            last_is_comment = c.children().filter(|x| x.kind() != K::Space && x.kind() != K::Comma).last().is_some_and(|x| syn::is_comment(x.kind()));
+                        }
+                        _ => last_is_comment = false,
+                    }
+                }
+                let any_comment = syn::any_node(f.node, &mut |x| syn::is_comment(x.kind()));
+                if n_items == 0 || last_is_comment || any_comment {
+                    add("R26");
+                }
+            }
+            // R12: a comment directly inside a heading (between marker and body)
+            K::Heading
+                if f.node.children().any(|c| {
+                    syn::is_comment(c.kind())
+                        || (c.kind() == K::Markup
+                            && (c.children().len() == 0
+                                || c.children().find(|x| x.kind() != K::Space).is_some_and(|x| syn::is_comment(x.kind()))))
+                }) =>
+            {
+                add("R12")
+            }
+            // R32: a code block whose only statement is an import with an item list: when the item
+            // list has to be broken the block is not, and the next pass lays it out differently.
+            K::CodeBlock => {
+                if let Some(code) = f.node.children().find(|c| c.kind() == K::Code) {
+                    let mut exprs = code.children().filter(|c| c.cast::<syn::ast::Expr>().is_some());
+                    let first = exprs.next();
+                    if exprs.next().is_none()
+                        && first.is_some_and(|e| e.kind() == K::ModuleImport && e.children().any(|c| c.kind() == K::ImportItems))
+                    {
+                        add("R32");
+                    }
+                }
+            }
+            // R44: a line comment directly inside a math delimiter pair gains a blank per pass
+            K::MathDelimited
+                if f.node.children().any(|c| {
+                    c.kind() == K::LineComment || (c.kind() == K::Math && c.children().any(|x| x.kind() == K::LineComment))
+                }) =>
+            {
+                add("R44")
             }
             // R28: blanks inside an attachment are dropped, also between two groups of primes
             // (`$f' '^2$` -> `$f''^2$`).
@@ -231,9 +361,41 @@ pub fn triggers(src: &str, root: &SyntaxNode) -> Vec<&'static str> {
                 {
                     add("R30");
                 }
-                // R4: a body holding nothing but comments gains blanks (`a#[/* c */]b` renders "a b")
-                if f.node.children().len() > 0 && f.node.children().all(|c| syn::is_comment(c.kind())) {
-                    add("R4");
+                // R4: a comment at the inner edge of the body (first or last thing besides blanks):
+                // blanks are added or moved (`a#[/* c */]b` renders "a b"; `[#[ /**/]` -> `[#[`<nl>)
+                {
+                    let sig: Vec<&SyntaxNode> = f.node.children().filter(|c| c.kind() != K::Space).collect();
+                    if sig.first().is_some_and(|c| syn::is_comment(c.kind())) || sig.last().is_some_and(|c| syn::is_comment(c.kind())) {
+                        add("R4");
+                    }
+                }
+                // R35: a content block with a blank at one inner edge only whose embedded code has to
+                // be broken: the next pass turns the blank into a line break (`- #a.x[ #grid(..)].x`).
+                if f.parent == Some(K::ContentBlock) {
+                    let first_sp = f.node.children().next().is_some_and(|c| c.kind() == K::Space && !syn::has_nl(c.text()));
+                    let last_sp = f.node.children().last().is_some_and(|c| c.kind() == K::Space && !syn::has_nl(c.text()));
+                    let single_line = !f.node.children().any(|c| c.kind() == K::Parbreak || (c.kind() == K::Space && syn::has_nl(c.text())));
+                    let embeds = f.node.children().any(|c| matches!(c.kind(), K::Hash | K::Equation));
+                    // asymmetric edge blanks, or embedded code that cannot stay on one line
+                    let forced = syn::has_nl(&syn::text_of(f.node))
+                        || syn::any_node(f.node, &mut |x| {
+                            x.kind() == K::Code && x.children().filter(|e| e.cast::<syn::ast::Expr>().is_some()).count() >= 2
+                        });
+                    if embeds && single_line && ((first_sp != last_sp) || ((first_sp || last_sp) && forced)) {
+                        add("R35");
+                    }
+                    // edges of different kinds, one of them a plain blank: `#[#[ n<nl><nl>..]]`, `#e[<nl><nl>#d(..) ][]`
+                    let class = |c: Option<&SyntaxNode>| -> u8 {
+                        match c {
+                            Some(c) if c.kind() == K::Parbreak || (c.kind() == K::Space && syn::has_nl(c.text())) => 2,
+                            Some(c) if c.kind() == K::Space => 1,
+                            _ => 0,
+                        }
+                    };
+                    let (a, b) = (class(f.node.children().next()), class(f.node.children().last()));
+                    if a != b && !single_line && (a == 1 || b == 1 || embeds) {
+                        add("R35");
+                    }
                 }
                 let mut kids = f.node.children();
                 if kids.next().is_some_and(|c| c.kind() == K::Space) {
